@@ -181,7 +181,15 @@ func c16Encoders(c *Ctx, src c16Source, viol func(api, clause, detail string)) [
 				err := build().XmlIndentWriter(&b, in[0], in[1])
 				return b.Bytes(), err
 			}})
-			es = append(es, enc16{"Map.JsonIndent" + tag, func() ([]byte, error) { return build().JsonIndent(in[0], in[1]) }})
+			es = append(es, enc16{"Map.JsonIndent" + tag, func() ([]byte, error) {
+				// an explicit false is the default encoding too: both spellings must give the same bytes
+				a, e1 := build().JsonIndent(in[0], in[1])
+				b, e2 := build().JsonIndent(in[0], in[1], false)
+				if (e1 != nil) != (e2 != nil) || !bytes.Equal(a, b) {
+					viol("Map.JsonIndent", "explicit-false-equals-default", fmt.Sprintf("JsonIndent(p,i)=%q %v, JsonIndent(p,i,false)=%q %v", a, e1, b, e2))
+				}
+				return a, e1
+			}})
 			es = append(es, enc16{"Map.JsonIndentWriter" + tag, func() ([]byte, error) {
 				var b bytes.Buffer
 				err := build().JsonIndentWriter(&b, in[0], in[1])
@@ -451,6 +459,12 @@ func c16Explore(c *Ctx, src c16Source, bound int, echoice bool) (nontrivial bool
 			}
 		}
 	case "mapseq":
+		// sequence order: the compact encoding has the element / attribute order of the source document
+		if st, e1 := rawTokens([]byte(src.xml), true, true); e1 == nil {
+			if ot, e2 := rawTokens(get("MapSeq.Xml"), true, true); e2 != nil || !eqStrings(tokensNamesOnly(st), tokensNamesOnly(ot)) {
+				viol("MapSeq.Xml", "sequence-order", fmt.Sprintf("source=%q output=%q: element / attribute order differs from the document (%v)", src.xml, get("MapSeq.Xml"), e2))
+			}
+		}
 		for n, b := range base {
 			if strings.HasPrefix(n, "MapSeq.XmlIndent(") {
 				if ok, why := sameModuloIndent(get("MapSeq.Xml"), b); !ok {
@@ -642,7 +656,7 @@ func c16RawOnFailingSink(c *Ctx, xmlDoc string) {
 func c16Run(c *Ctx) {
 	mustBeDefault(c)
 	mxj.XMLEscapeChars(true)
-	c.S.Rule = "cases = source value x every encoder entry point: Maps decoded from the U-XML documents (<= N elements, <= 1-2 decorations) and JSON-shaped Maps (<= M nodes, keys {a,b,-x,#text}), MapSeqs decoded from the same documents, the nil Map and the empty Map, and lists of 1..3 Maps; entry points Xml, XmlIndent, XmlWriter, XmlIndentWriter (Map and MapSeq), Json, JsonIndent, JsonWriter[Raw], JsonIndentWriter[Raw] (default and safe), StringIndent, Maps.XmlString[Indent], Maps.JsonString[Indent], the four ...File writers; indent/prefix pairs over blanks; sinks accept-all, fail-at-once, short-write, and fail-after-k-bytes for every k (then accepting again). Each entry point is executed under ascending and descending map-iteration order, twice in a row, and under every sequence of <= B deviations from the sorted order at every range-over-map inside the encoder (E-choice). Oracle: byte-identical output in all executions; attributes and child elements ascending; indented = compact up to whitespace-only character data; Writer/Raw/File forms = byte forms; sink errors returned, what reached a failing sink is exactly a prefix of the full output and nothing is written after the failure, and the Raw forms still return the whole encoding; Maps forms = concatenation. non-trivial = source encoded by every entry point."
+	c.S.Rule = "cases = source value x every encoder entry point: Maps decoded from the U-XML documents (<= N elements, <= 1-2 decorations) and JSON-shaped Maps (<= M nodes, keys {a,b,-x,#text}), MapSeqs decoded from the same documents, Maps whose keys differ only in case, by a prefix or by a number read lexically, Maps rooted at a special key, the nil Map and the empty Map, and lists of 1..3 Maps; entry points Xml, XmlIndent, XmlWriter, XmlIndentWriter (Map and MapSeq), Json, JsonIndent, JsonWriter[Raw], JsonIndentWriter[Raw] (default and safe), StringIndent, Maps.XmlString[Indent], Maps.JsonString[Indent], the four ...File writers; indent/prefix pairs over blanks; sinks accept-all, fail-at-once, short-write, and fail-after-k-bytes for every k (then accepting again). Each entry point is executed under ascending and descending map-iteration order, twice in a row, and under every sequence of <= B deviations from the sorted order at every range-over-map inside the encoder (E-choice). Oracle: byte-identical output in all executions; attributes and child elements ascending; indented = compact up to whitespace-only character data; Writer/Raw/File forms = byte forms; sink errors returned, what reached a failing sink is exactly a prefix of the full output and nothing is written after the failure, and the Raw forms still return the whole encoding; Maps forms = concatenation. non-trivial = source encoded by every entry point."
 	c.S.Assumptions = []string{"gob output is excluded from the determinism clause (encoding/gob encodes maps in iteration order by design; the property names XML and JSON)", "runtime hash order is replaced by the owned order; a free-running pass on the uninstrumented build is supplementary"}
 	n1, nj, b := 3, 4, 2
 	if c.Thorough {
@@ -728,6 +742,31 @@ func c16Run(c *Ctx) {
 		c.S.Evaluations++
 		c16OddRoot(c, js)
 	}
+	// MapSeqs with more than ten sequenced members / attributes in one element (sequence numbers of two digits)
+	for _, d := range []string{
+		`<r><a>0</a><b>1</b><a>2</a><a>3</a><b>4</b><c>5</c><a>6</a><b>7</b><a>8</a><a>9</a><b>10</b><a>11</a><c>12</c></r>`,
+		`<r z="0" y="1" x="2" w="3" v="4" u="5" t="6" s="7" q="8" p="9" o="10" n="11"><a/></r>`,
+	} {
+		if !c.Mine() {
+			continue
+		}
+		c.S.States++
+		c.S.Evaluations++
+		c16Explore(c, c16Source{kind: "mapseq", xml: d}, 1, false)
+	}
+	// keys that differ only in case, by a prefix, or by a number read lexically (ascending byte order is the
+	// documented order for attributes and child elements)
+	for _, js := range []string{
+		`{"r":{"a":"1","A":"2","ab":"3","a1":"4","a10":"5","a2":"6","B":"7","-x":"1","-X":"2","-x1":"3","-x10":"4","-x2":"5"}}`,
+		`{"r":{"b":{"a2":"1","a10":"2","a1":"3"},"a":[{"-k2":"1","-k10":"2","Z":"3","z":"4"},{"Z":"5"}],"B":"x"}}`,
+	} {
+		if !c.Mine() {
+			continue
+		}
+		c.S.States++
+		c.S.Evaluations++
+		c16Explore(c, c16Source{kind: "map", js: js}, 1, false)
+	}
 	// the nil Map and the Map with zero entries
 	for _, js := range []string{"null", "{}"} {
 		if !c.Mine() {
@@ -801,4 +840,24 @@ func c16OddRoot(c *Ctx, js string) {
 	if !bytes.Equal(x, x2) || !bytes.Equal(x, xw) || !bytes.Equal(xi, xiw) || strip(x) != strip(xi) {
 		c.Violate("Map.Xml", "variants-agree", "odd-root", cas, nil, fmt.Sprintf("map=%s\n Xml            =%q\n Xml again      =%q\n XmlWriter      =%q\n XmlIndent      =%q\n XmlIndentWriter=%q", js, x, x2, xw, xi, xiw))
 	}
+}
+
+// tokensNamesOnly keeps start tags (with their attribute names in order) and end tags of a token list.
+func tokensNamesOnly(toks []string) []string {
+	var out []string
+	for _, t := range toks {
+		if strings.HasPrefix(t, "S:") {
+			parts := strings.Split(t[2:], " ")
+			o := "S:" + parts[0]
+			for _, a := range parts[1:] {
+				if i := strings.Index(a, "="); i > 0 {
+					o += " " + a[:i]
+				}
+			}
+			out = append(out, o)
+		} else if strings.HasPrefix(t, "E:") {
+			out = append(out, t)
+		}
+	}
+	return out
 }
